@@ -11,6 +11,7 @@ import EvyV.Driver.TyDrv
 import EvyV.Driver.LexDrv
 import EvyV.Driver.LayoutDrv
 import EvyV.Driver.PrattDrv
+import EvyV.Driver.BlocksDrv
 import EvyV.Driver.StmtDrv
 import EvyV.Gen.Shapes
 /-
@@ -70,6 +71,7 @@ def handle (line : String) : String :=
   | "pratt" :: rest => PrattDrv.handle rest
   | "prattw" :: rest => PrattDrv.handleW rest
   | "layoutw" :: rest => PrattDrv.handleLayout rest
+  | "blocks" :: rest => BlocksDrv.handle rest
   | ["fmtk"] => LayoutDrv.handleK ""
   | ["fmtk", w] => LayoutDrv.handleK w
   | ["fmtm"] => LayoutDrv.handleM ""
